@@ -5,6 +5,7 @@ are runs of the statement-grained LTS (`Model/ParserRunFine.lean`), so every the
 -/
 import VaxisModel.Model.ParserRunSched
 import VaxisModel.Model.Parser
+import VaxisModel.Props.C08Fine
 
 namespace VaxisModel.Props.C08Sched
 open VaxisModel.Model.ParserTable VaxisModel.Model.Parser VaxisModel.Model.ParserRun VaxisModel.Model.ParserRunFine
@@ -308,5 +309,105 @@ theorem enumerate_complete (T : Table) (fuel : Nat) (ins : List Nat) (mc : Bool)
     (hcap : (enumerate T fuel {} ins mc [] cap []).length < cap) :
     ls ∈ enumerate T fuel {} ins mc [] cap [] := by
   simpa using enumerate_complete_acc T fuel {} ins mc [] cap [] ls hr hlen hcap
+
+/-! ### the oracle clause `unguarded-write` is a theorem of the LTS -/
+
+open VaxisModel.Lemmas.ParserRunFine in
+/-- **The guarded fields are written only under the mutex**: in every reachable state of the
+    statement-grained system, a statement that changes `escGen` or any field of the parser state
+    (`state`, `ignoreST`, the collected bytes, the accumulators) is a statement of the goroutine that
+    holds `p.mu` before and after it — the main goroutine between its `Lock` and `Unlock`, or a
+    callback between its `Lock` and its deferred `Unlock`.  (`Close()`, read returns, timer expiries,
+    `Lock`, `Unlock`, `Stop()`, the `select`, `emit(EOF{})` and `close` change none of them.)  This is
+    the clause `FAIL[unguarded-write]` of the forced-schedule oracle, which is evaluated on the real
+    code; together with `fine_mutual_exclusion` it is why "sync.Mutex gives sequential consistency for
+    the fields it guards" applies to them. -/
+theorem fine_writes_under_mutex (T : Table) (hT : TimerOk T) (fls : List FLabel) (f : FSys) (out : List Seq)
+    (h : FSys.run T FSys.init fls = some (f, out)) (l : FLabel) (f' : FSys) (o : List Seq)
+    (hs : FSys.step T f l = some (f', o)) (hch : f'.escGen ≠ f.escGen ∨ f'.ps ≠ f.ps) :
+    (l = .main ∧ f.mutex = some .main ∧ f'.mutex = some .main) ∨
+    (∃ i, l = .cb i ∧ f.mutex = some .cb ∧ f'.mutex = some .cb) := by
+  obtain ⟨hm1, hm2, _, _, _⟩ := VaxisModel.Props.C08Fine.fine_mutual_exclusion T hT fls f out h
+  cases l with
+  | closeSig => simp only [FSys.step, Option.some.injEq, Prod.mk.injEq] at hs; obtain ⟨rfl, _⟩ := hs; simp at hch
+  | readRet i =>
+    simp only [FSys.step] at hs
+    split at hs
+    · simp only [Option.some.injEq, Prod.mk.injEq] at hs; obtain ⟨rfl, _⟩ := hs; simp at hch
+    · cases hs
+  | expire =>
+    simp only [FSys.step] at hs
+    split at hs
+    · simp only [Option.some.injEq, Prod.mk.injEq] at hs; obtain ⟨rfl, _⟩ := hs; simp at hch
+    · cases hs
+  | main =>
+    left
+    simp only [FSys.step] at hs
+    have key : (f'.escGen = f.escGen ∧ f'.ps = f.ps) ∨ (holdsMain f.mpc = true ∧ f'.mutex = f.mutex) := by
+      unfold mainStep at hs
+      cases hpc : f.mpc with
+      | atSelect => rw [hpc] at hs; simp only at hs; split at hs <;> (cases hs; left; exact ⟨rfl, rfl⟩)
+      | inRead => rw [hpc] at hs; cases hs
+      | readDone i => rw [hpc] at hs; cases hs; left; exact ⟨rfl, rfl⟩
+      | stopped i =>
+        rw [hpc] at hs; simp only at hs; split at hs
+        · cases hs; left; exact ⟨rfl, rfl⟩
+        · cases hs
+      | locked i => rw [hpc] at hs; cases hs; right; exact ⟨rfl, rfl⟩
+      | bumped i => rw [hpc] at hs; cases hs; right; exact ⟨rfl, rfl⟩
+      | stepped b => rw [hpc] at hs; cases hs; left; exact ⟨rfl, rfl⟩
+      | fin st v =>
+        rw [hpc] at hs
+        cases st with
+        | stop => cases hs; left; exact ⟨rfl, rfl⟩
+        | lock =>
+          simp only at hs; split at hs
+          · cases hs; left; exact ⟨rfl, rfl⟩
+          · cases hs
+        | bump => cases hs; right; exact ⟨rfl, rfl⟩
+        | unlock => cases hs; left; exact ⟨rfl, rfl⟩
+        | emit => cases hs; left; exact ⟨rfl, rfl⟩
+        | close => cases hs; left; exact ⟨rfl, rfl⟩
+      | done => rw [hpc] at hs; cases hs
+    rcases key with ⟨h1, h2⟩ | ⟨h1, h2⟩
+    · rcases hch with hch | hch
+      · exact absurd h1 hch
+      · exact absurd h2 hch
+    · have hm : f.mutex = some .main := hm1.mpr h1
+      exact ⟨rfl, hm, by rw [h2]; exact hm⟩
+  | cb i =>
+    right
+    refine ⟨i, rfl, ?_⟩
+    simp only [FSys.step, cbStep] at hs
+    cases hk : f.cbs[i]? with
+    | none => rw [hk] at hs; cases hs
+    | some c =>
+      obtain ⟨g, pc⟩ := c
+      rw [hk] at hs
+      have hmem : (g, pc) ∈ f.cbs := List.mem_of_getElem? hk
+      have hcb : crit pc = true → f.mutex = some .cb := by
+        intro hc
+        by_cases hne : f.mutex = some .cb
+        · exact hne
+        · exfalso
+          rw [if_neg hne] at hm2
+          have := (List.countP_eq_zero.mp hm2) (g, pc) hmem
+          simp [hc] at this
+      cases pc with
+      | started =>
+        simp only at hs; split at hs
+        · simp only [Option.some.injEq, Prod.mk.injEq] at hs; obtain ⟨rfl, _⟩ := hs; simp at hch
+        · cases hs
+      | locked => simp only [Option.some.injEq, Prod.mk.injEq] at hs; obtain ⟨rfl, _⟩ := hs; simp at hch
+      | passed => simp only [Option.some.injEq, Prod.mk.injEq] at hs; obtain ⟨rfl, _⟩ := hs; simp at hch
+      | emitted =>
+        simp only [Option.some.injEq, Prod.mk.injEq] at hs; obtain ⟨rfl, _⟩ := hs
+        exact ⟨hcb rfl, hcb rfl⟩
+      | stateSet =>
+        simp only [Option.some.injEq, Prod.mk.injEq] at hs; obtain ⟨rfl, _⟩ := hs
+        exact ⟨hcb rfl, hcb rfl⟩
+      | stSet => simp only [Option.some.injEq, Prod.mk.injEq] at hs; obtain ⟨rfl, _⟩ := hs; simp at hch
+      | failed => simp only [Option.some.injEq, Prod.mk.injEq] at hs; obtain ⟨rfl, _⟩ := hs; simp at hch
+      | gone => cases hs
 
 end VaxisModel.Props.C08Sched
